@@ -1225,6 +1225,16 @@ func (p *Parser) relocateNamedObjects(objIndex uint32) parseResult {
 					return parseResultFailed
 				}
 			}
+			// The target must not be part of the object's own subtree
+			// (e.g. Device(\DEV0.DEV0)); relocating the object there would
+			// disconnect it from the tree and make it its own ancestor.
+			for ancestorIndex := targetObj.index; ancestorIndex != InvalidIndex; ancestorIndex = p.objTree.ObjectAt(ancestorIndex).parentIndex {
+				if ancestorIndex == obj.index {
+					kfmt.Fprintf(p.errWriter, "[table: %s, offset: 0x%x] relocation path \"%s\" resolved to a scope inside the object itself\n", p.tableName, obj.amlOffset, namepath[:])
+					return parseResultFailed
+				}
+			}
+
 			p.objTree.detach(p.objTree.ObjectAt(obj.parentIndex), obj)
 			p.objTree.append(targetObj, obj)
 			p.objTree.ObjectAt(obj.firstArgIndex).value = namepath[nameIndex:]
